@@ -477,6 +477,7 @@ class C03(base.StoreSpec):
     extract_also = ["C02"]
     counts = {"quick": 900, "thorough": 12000}
     trusted_base = [
+        "stream and trace engines: oracle only (driver mrw runs real stream/trace tsTable histories, checks/C02.py st_oracle judges them; no Lean model)",
         "Lean 4.33.0 kernel",
         "correspondence check: Go driver hooks/banyand/internal/verifdrv/mrw (+ hooks/banyand/measure/zz_verif_mrw.go): real tsTable, "
         "memPart.mustFlush/mustOpenFilePart/introduceFlushed, mergePartsThenSendIntroduction/mergeParts/mergeBlocks/introduceMerged on "
@@ -506,6 +507,9 @@ class C03(base.StoreSpec):
         nbat = 3 if n < 5000 else 40
         for _ in range(nbat):
             out.append(base.case_batch(rng, "bat", maint=True))
+        for _ in range(120 if n < 5000 else 2000):         # oracle-only: stream and trace tables
+            out.append(base.case_st(rng, "strm"))
+            out.append(base.case_st(rng, "trc"))
         for _ in range(n - 2 * nbig - 2 - nhuge - 4 - nbat - (253 if n < 5000 else 4012)):
             r = rng.random()
             if r < 0.8:
@@ -532,11 +536,13 @@ class C03(base.StoreSpec):
                 [case_sidx(rng) for _ in range(min(n, 4000))])
 
     def shrink(self, line, still_fails):
-        if line.startswith("sidx"):
+        if line.startswith("sidx") or base.st_is(line):
             return line
         return base.StoreSpec.shrink(self, line, still_fails)
 
     def compare(self, line, g, l):
+        if base.st_is(line):      # stream/trace tables: no Lean model, oracle only
+            return True
         if line.startswith("sidx"):
             return sidx_compare(g, l)
         if line.startswith("fset ") or line.startswith("ftype "):
@@ -544,6 +550,8 @@ class C03(base.StoreSpec):
         return base.compare_outputs(line, g, l, self.norm)
 
     def oracle(self, line, g):
+        if base.st_is(line):
+            return base.st_oracle(line, g)
         if line.startswith("sidx"):
             return sidx_oracle(line, g)
         rp = Replay(line)
@@ -589,6 +597,8 @@ class C03(base.StoreSpec):
         return known
 
     def nontrivial(self, line, g):
+        if base.st_is(line):
+            return hash(line)
         if line.startswith("sidx"):
             return hash(line) if (" ; M" in line or " ; F " in line) else None
         rp = Replay(line)
